@@ -52,11 +52,13 @@ def allocStr (al : List (Nat × Nat)) : String :=
   joinSp ("ok" :: toString s.length :: s.map (fun p => s!"{p.1} {p.2}"))
 
 def compile (is : List AInstr) : String :=
+  -- which error is reported is not part of the property: all error classes answer `err`
   match allocate Avo.Gen.regs is with
-  | .error e => "err " ++ errName e
+  | .error .missingAllocator => "err " ++ errName .missingAllocator
+  | .error _ => "err"
   | .ok al =>
-    if !verifyBound Avo.Gen.regs al is then "err nonphysical"
-    else if !verifyEncodable Avo.Gen.regs al is then "err highbyte"
+    if !verifyBound Avo.Gen.regs al is then "err"
+    else if !verifyEncodable Avo.Gen.regs al is then "err"
     else allocStr al
 
 /-- bound: (original register, bound register) per operand register of one instruction -/
